@@ -16,7 +16,9 @@ META = {
              "application of the pending list to the base; AddTx appends iff the transaction applies; Rebase keeps exactly the "
              "greedy in-order applicable subsequence of the not-applied pending transactions and returns the rest as invalidated; "
              "all results equal those of a specification machine without cached state. A rebase in which the user's apply returns "
-             "a non-TxInvalidError error is documented as fatal to the buffer: theorems hold up to and including that response.",
+             "a non-TxInvalidError error is documented as fatal to the buffer: theorems hold up to and including that response. "
+             "Concurrency (monitored): callers racing on the real Buffer - incl. requests queued behind a kernel held inside an AddTx, and a "
+             "rebase whose compaction is slow - must be explained by some serial order (search inside coqc).",
     "note": "Trusted: Coq kernel; the hand-written model is tied to the code by differential execution on every run (not by "
             "translation); Go channel/select semantics for 'the kernel goroutine serves one request at a time' (concurrent-caller "
             "runs are checked for explainability by a serial order as supporting evidence). The repo carries a fix: commit "
